@@ -625,8 +625,8 @@ def units(tier, seed):
     T = tier == "thorough"
     us = [Unit("fixed_pipelines", "c17:unit_fixed_pipelines", {}, 1), Unit("misc", "c17:unit_misc", {"n_gen": 2000 if T else 200}, 3)]
     for cls_name in ("sequential", "configurable"):
-        us.append(Unit(f"sequence_sm_{cls_name}", "c17:unit_sequence_stateful", {"cls_name": cls_name, "examples": 1500 if T else 150, "steps": 20 if T else 12}, 4))
-    us.append(Unit("parallel_histories", "c17:unit_parallel_histories", {"n_gen": 300 if T else 40}, 5))
+        us.append(Unit(f"sequence_sm_{cls_name}", "c17:unit_sequence_stateful", {"cls_name": cls_name, "examples": 6000 if T else 150, "steps": 20 if T else 12}, 4))
+    us.append(Unit("parallel_histories", "c17:unit_parallel_histories", {"n_gen": 2500 if T else 40}, 5))
     nmax = 5 if T else 4
     for n in range(1, nmax + 1):
         for w in list(range(1, n + 1)) + [None]:
